@@ -84,29 +84,51 @@ class TlsTransport(SimTransport):
         return len(self.pend)
 
 
-def make_selector(transport, clock, limit_ticks):
-    import lomond.selectors as LS
+class FakeSelectModule(object):
+    """stands in for the `select` module inside lomond.selectors, so that lomond's REAL selector classes (PollSelector,
+    SelectSelector) run unchanged over the simulated kernel queue on the virtual clock"""
+    POLLIN, POLLPRI, POLLERR, POLLHUP, POLLNVAL = 1, 2, 8, 16, 32
 
-    class Sel(LS.SelectorBase):
-        """the REAL SelectorBase.wait (pending short-cut) over a simulated wait_readable"""
+    def __init__(self, transport, clock, limit_ticks):
+        self.tr, self.clock, self.limit = transport, clock, limit_ticks
 
-        def wait_readable(self, timeout=0.0):
-            transport._absorb()
-            if transport.kernel:
-                return True
-            dt = int(round(timeout * simnet.TICK))
-            if transport.arrivals and transport.arrivals[0][0] <= clock.ticks + dt:
-                clock.ticks = transport.arrivals[0][0]
-                transport._absorb()
-                return True
-            clock.ticks += dt
-            if clock.ticks > limit_ticks:
-                raise simnet.Blocked()
-            return False
+    def _wait(self, timeout_s):
+        tr, clock = self.tr, self.clock
+        tr._absorb()
+        if tr.kernel:
+            return True
+        dt = int(round((timeout_s or 0.0) * simnet.TICK))
+        if tr.arrivals and tr.arrivals[0][0] <= clock.ticks + dt:
+            clock.ticks = tr.arrivals[0][0]
+            tr._absorb()
+            return True
+        clock.ticks += dt
+        if clock.ticks > self.limit:
+            raise simnet.Blocked()
+        return False
 
-        def close(self):
-            pass
-    return Sel
+    def select(self, rlist, wlist, xlist, timeout=None):
+        return (list(rlist) if self._wait(timeout) else []), [], []
+
+    def poll(self):
+        mod = self
+
+        class P(object):
+            def __init__(self):
+                self.fds = []
+
+            def register(self, fd, events=0):
+                self.fds.append(fd)
+
+            def unregister(self, fd):
+                self.fds.remove(fd)
+
+            def poll(self, timeout_ms=None):
+                return [(fd, mod.POLLIN) for fd in self.fds] if mod._wait((timeout_ms or 0.0) / 1000.0) else []
+
+            def close(self):
+                pass
+        return P()
 
 
 def run_sim(sc):
@@ -193,21 +215,24 @@ def run_sim(sc):
 
         def _connect(self):
             return tr, None
-    Sess._selector_cls = make_selector(tr, clock, limit)
-    old = (S.time, F.make_masking_key, W.os)
+    import lomond.selectors as LS
+    Sess._selector_cls = LS.SelectSelector if sc.get("selector") == "select" else LS.PollSelector
+    old = (S.time, F.make_masking_key, W.os, LS.select)
+    LS.select = FakeSelectModule(tr, clock, limit)
     S.time = clock
     F.make_masking_key = lambda: b"\x00\x00\x00\x00"
     W.os = simnet._OsProxy(W.os, scen.KEY16)
     events = []
     try:
-        ws = W.WebSocket("wss://example.test/" if sc["tls"] else "ws://example.test/")
+        # plain_url: a ws:// URL whose transport is TLS all the same (it goes through an https:// proxy)
+        ws = W.WebSocket("wss://example.test/" if (sc["tls"] and not sc.get("plain_url")) else "ws://example.test/")
         try:
             for ev in ws.connect(session_class=Sess, poll=60.0, ping_rate=0, ping_timeout=None, close_timeout=None):
                 events.append((clock.ticks, simnet.canon_event(ev)))
         except simnet.Blocked:
             pass
     finally:
-        S.time, F.make_masking_key, W.os = old
+        S.time, F.make_masking_key, W.os, LS.select = old
     return events, tr
 
 
@@ -266,9 +291,10 @@ def gen(rnd, tls, held=False):
             arrivals.append((t, c))
         for op, p in frames:
             expected.append((t, [{1: 6, 2: 7, 9: 8}[op], p]))
+    extra = dict(selector=rnd.choice(["poll", "select"]), plain_url=bool(tls) and rnd.random() < 0.25)
     if held:
-        return dict(tls=tls, arrivals=arrivals, _expected=expected, busy_lock=False, held_lock=[arrivals[1][0] - 1, t + 30 * 1024])
-    return dict(tls=tls, arrivals=arrivals, _expected=expected, busy_lock=(rnd.random() < 0.3))
+        return dict(tls=tls, arrivals=arrivals, _expected=expected, busy_lock=False, held_lock=[arrivals[1][0] - 1, t + 30 * 1024], **extra)
+    return dict(tls=tls, arrivals=arrivals, _expected=expected, busy_lock=(rnd.random() < 0.3), **extra)
 
 
 def oracle(sc, events, tr):
@@ -379,7 +405,7 @@ def run(rep, info, model, tier, seed):
         rep.count("records", "1-4" if len(sc["arrivals"]) <= 5 else ("5-50" if len(sc["arrivals"]) <= 51 else "51+"))
         res = oracle(sc, events, tr)
         if res:
-            rep.violation(res[0], scenario=fam.jsonable_sc(dict(kind="virtual", tls=sc["tls"], busy_lock=sc.get("busy_lock", False), held_lock=sc.get("held_lock"), arrivals=[[t, b] for t, b in sc["arrivals"]],
+            rep.violation(res[0], scenario=fam.jsonable_sc(dict(kind="virtual", tls=sc["tls"], busy_lock=sc.get("busy_lock", False), held_lock=sc.get("held_lock"), selector=sc.get("selector"), plain_url=sc.get("plain_url", False), arrivals=[[t, b] for t, b in sc["arrivals"]],
                                                               expected=[[t, e] for t, e in sc["_expected"]])), family="C18:virtual-clock-bursts")
         sc["_recv_log"] = tr.recv_log
         if len(rep.samples) < 3:
@@ -398,7 +424,7 @@ def run(rep, info, model, tier, seed):
         if dis and not rep.violations:
             rep.broken("correspondence C18: the model's sequence of read sizes differs from the implementation on %d single-burst scenarios; first %r" % (dis, first))
     rep.families.append(dict(name="C18:virtual-clock-bursts", cases=n, disagreements=dis,
-                             rule="real session loop + REAL SelectorBase.wait over a simulated kernel queue and TLS pending buffer on the virtual clock with poll=60 s: bursts around 16 KiB records and the 64 KiB receive buffer (+-1), 2-5000 small frames per burst, messages spanning records; every message and automatic pong must appear at the very tick its last byte became available; in some runs the write lock looks taken to non-blocking probes (another thread is sending) while blocking acquisition succeeds; in others another thread holds it for 30 s and more (a sendall the peer drains slowly) while bursts without Pings arrive: reading must not wait for it"))
+                             rule="real session loop + lomond's REAL PollSelector / SelectSelector (the `select` module they use is simulated: kernel queue and TLS pending buffer on the virtual clock) with poll=60 s, wss:// URLs and ws:// URLs carried over TLS (https proxy): bursts around 16 KiB records and the 64 KiB receive buffer (+-1), 2-5000 small frames per burst, messages spanning records; every message and automatic pong must appear at the very tick its last byte became available; in some runs the write lock looks taken to non-blocking probes (another thread is sending) while blocking acquisition succeeds; in others another thread holds it for 30 s and more (a sendall the peer drains slowly) while bursts without Pings arrive: reading must not wait for it"))
     # real sockets
     nreal = 2 if tier == "quick" else 12   # per transport; odd runs put the last byte of the burst in its own segment
     tmp = tempfile.mkdtemp(prefix="c18-", dir=core.BUILD)
@@ -435,7 +461,7 @@ def run(rep, info, model, tier, seed):
 def replay(body):
     sc = fam.unjson_sc(body["scenario"])
     if sc.get("kind") == "virtual":
-        sc2 = dict(tls=sc["tls"], busy_lock=sc.get("busy_lock", False), held_lock=sc.get("held_lock"), arrivals=[(t, b) for t, b in sc["arrivals"]],
+        sc2 = dict(tls=sc["tls"], busy_lock=sc.get("busy_lock", False), held_lock=sc.get("held_lock"), selector=sc.get("selector"), plain_url=sc.get("plain_url", False), arrivals=[(t, b) for t, b in sc["arrivals"]],
                    _expected=[(t, e) for t, e in sc["expected"]])
         events, tr = run_sim(sc2)
         res = oracle(sc2, events, tr)
